@@ -8,6 +8,24 @@ var commonAssume = []string{
 }
 
 var props = map[string]propConf{
+	"C01": {level: "model_checking", worker: "worker", quickDL: 150, thorDL: 1200,
+		rule:   "every catalogue operator (each parameter value) and every ordered pair of chainable operators x every producer script over {Next a, Next b, Error, Complete} up to length 3 quick / 5 (pairs 4) thorough, illegal suffixes after a terminal included, played by a cold source built with each of the three constructors; oracle: the final observer's trace is in Next*(Error|Complete)?, equals the trace obtained from the script's legal prefix alone (late notifications are discarded), and the dropped-notification hook saw every late notification; plus 2-3 threads emitting scripts concurrently into one safe destination / subject, all schedules within the bound; non-trivial = distinct (program, script) with >= 1 notification, by outcome",
+		assume: commonAssume},
+	"C03": {level: "model_checking", worker: "worker", quickDL: 150, thorDL: 1200,
+		rule:   "every catalogue operator and ordered pair x every legal script (<= 3 values quick / 4 thorough; pairs 2 / 3) ending in completion, error, or never (then Unsubscribe) on a cold source, and on a pushed source with Unsubscribe at every prefix position from outside and from inside the k-th callback; oracle: per-source teardown count == subscription count, no live subscription, no managed goroutine blocked, no virtual timer armed; plus all schedules (bound 3) of Complete/Error/Unsubscribe/Add/Wait races on one subscriber with counted teardowns, and every subset of panicking teardowns",
+		assume: commonAssume},
+	"C08": {level: "model_checking", worker: "worker", quickDL: 150, thorDL: 1200,
+		rule:   "every synchronous catalogue operator and ordered pair x every legal script (<= 3 values quick / 5 thorough; pairs 2 / 3) pushed notification by notification: right after each Next/terminal returns the observer must hold exactly the reference model's output for the prefix, every callback ran on the pushing thread and no goroutine was spawned; hand-off operators (ObserveOn, SubscribeOn, ToChannel): capacities 1-3, input lengths 0..n+3, all schedules of producer and consumer within the bound, FIFO/no loss/terminal last/producer never ahead by more than capacity+2",
+		assume: commonAssume},
+	"C09": {level: "model_checking", worker: "worker", quickDL: 150, thorDL: 1200,
+		rule:   "every catalogue operator, the same operator behind an upstream ContextWithValue, and every ordered pair x every legal script (<= 3 values quick / 4 thorough; pairs 2 / 3) with marker values attached at SubscribeWithContext, mid-pipeline and per source item; oracle at every callback of the final observer and every context-aware operator callback: context non-nil, subscription marker visible, mid-pipeline marker visible, a per-item marker visible on values (per the row's rule), and every source subscribed with a context carrying the subscription marker",
+		assume: commonAssume},
+	"C12": {level: "model_checking", worker: "worker", quickDL: 150, thorDL: 1200,
+		rule:   "every catalogue operator and ordered pair x every legal script (<= 3 values quick / 4 thorough; pairs 2 / 3): three sequential subscriptions to one pipeline value each compared with a freshly built pipeline, source subscription count per subscription equal to the definition's; one operator value applied to three different sources and subscribed in all 6 orders, each compared with its fresh twin, no source subscribed at construction; two concurrent subscribers under all schedules within the bound",
+		assume: commonAssume},
+	"C04": {level: "model_checking", worker: "worker", quickDL: 150, thorDL: 1200,
+		rule:   "every catalogue operator configuration x every legal input script (values over a 2-letter alphabet, length <= 3 quick / 5 thorough, endings complete / error / none), run on the real code on a cold synchronous source (whole trace compared with the executable reference model) and on a pushed source (trace compared with the model after every single notification); plus all ordered pairs of chainable operators (composition of the models); non-trivial = distinct (operator, script) pairs whose script has at least one notification",
+		assume: commonAssume},
 	"C02": {level: "model_checking", worker: "worker", quickDL: 150, thorDL: 1200,
 		rule:   "stateless DFS over all schedules (thread interleavings at lock/atomic/channel/timer points, CLOCK advances, select choices) of each closed driver with deviation cost <= bound (quick: 2 bare / 1 in chains; thorough: 3 / 2): 2 producer threads (or producers + virtual clock) per multi-source/timed/hand-off operator and per subject, each alone and followed by Map/StartWith/TapOnSubscribe/TapOnFinalize/Catch; every callback of the final observer (and of every inner window/group observer) contains a yield; non-trivial = executions with > 2 context switches that delivered something, counted by distinct observer outcome per case",
 		assume: commonAssume},
